@@ -536,6 +536,12 @@ class UDPTunnel(_Tunnel):
                 else:
                     return
 
+                if self._reconnect_task is None and self.communication_channel is None:
+                    # disconnected while waiting for the acknowledgements - no reconnect
+                    raise CommunicationError(
+                        "Sending TunnellingRequest failed twice. Tunnel was closed.",
+                        True,
+                    )
                 if self._reconnect_task is None:
                     self._tunnel_lost()
                 if self._reconnect_task is None:
